@@ -24,7 +24,7 @@ Qed.
 (* ---------- no colocation, placement preserved ---------- *)
 Lemma evac_run_safe : forall s this skip vs evs w,
   NoDup (map n_id s) -> In this (cl s) ->
-  WInv s w -> NodesOk w -> ZeroRule w ->
+  WInv s w -> NodesOk w ->
   NoDup (map v_id vs) ->
   (forall v, In v vs -> In {| r_loc := this; r_info := v |} (w_reps w (v_id v))) ->
   (forall v, In v vs -> exists n0, In n0 s /\ In v (all_vols n0)) ->
@@ -32,7 +32,7 @@ Lemma evac_run_safe : forall s this skip vs evs w,
   ok_coloc (prop_trace s w (evac_steps (l_node this) evs)) = true /\
   (trig_rp_xy s = false -> ok_pres (prop_trace s w (evac_steps (l_node this) evs)) = true).
 Proof.
-  intros s this skip vs. induction vs as [|v vs IH]; intros evs w Hnd Hthis HW HN HZ Hvs Hin Hsrc H.
+  intros s this skip vs. induction vs as [|v vs IH]; intros evs w Hnd Hthis HW HN Hvs Hin Hsrc H.
   - destruct evs; [|discriminate]. cbn. auto.
   - cbn [map] in Hvs. inversion Hvs as [|? ? Hnv Hdv]; subst.
     destruct evs as [|e evs]; [discriminate|].
@@ -46,10 +46,10 @@ Proof.
       assert (loc_of s (l_node this) = this) as Efl by (apply loc_of_cl; auto).
       assert (loc_of s to = n_loc t) as Etl by (rewrite <- Etid; apply loc_of_in; auto).
       unfold movable in Hmov. apply andb_true_iff in Hmov. destruct Hmov as [Hg _].
-      destruct (move_step_safe s w dt (l_node this) to v Hnd HW HN HZ) as [Hc [Hp [HW' [HN' [HZ' [_ [_ Hoth]]]]]]]; auto.
+      destruct (move_step_safe s w dt (l_node this) to v Hnd HW HN) as [Hc [Hp [HW' [HN' [_ [_ Hoth]]]]]]; auto.
       { rewrite Etl. unfold cl. apply in_map; auto. }
       { rewrite Efl. apply Hin. left; auto. }
-      { intros Hrp. rewrite Hrp in Hg. rewrite Efl, Etl. exact Hg. }
+      { unfold move_guard. rewrite Efl, Etl. exact Hg. }
       set (w' := apply_step s w (Move (v_id v) dt (l_node this) to)) in *.
       destruct (IH evs w') as [Hc2 Hp2]; auto.
       { intros x Hx. rewrite Hoth; [apply Hin; right; auto|].
@@ -147,11 +147,11 @@ Proof.
 Qed.
 
 Theorem evac_accepts_safe : forall s this skip evs,
-  wf_snap s -> trig_coloc_000 s = false -> evac_accepts s this skip evs = true ->
+  wf_snap s -> evac_accepts s this skip evs = true ->
   ok_coloc (prop_trace s (init_world s) (evac_steps this evs)) = true /\
   (trig_rp_xy s = false -> ok_pres (prop_trace s (init_world s) (evac_steps this evs)) = true).
 Proof.
-  intros s this skip evs Hwf Htr H. unfold evac_accepts in H.
+  intros s this skip evs Hwf H. unfold evac_accepts in H.
   destruct (find_node s this) as [n|] eqn:En; [|discriminate].
   apply find_node_some in En. destruct En as [Hn Eid].
   apply existsb_exists in H. destruct H as [ds [Hds Hrun]].
@@ -163,7 +163,6 @@ Proof.
   - unfold cl. apply in_map; auto.
   - apply init_WInv.
   - apply init_NodesOk. split; auto.
-  - apply init_ZeroRule; auto.
   - eapply Permutation_NoDup; [apply Permutation_map; exact HP|]. apply Hvids; auto.
   - intros v Hv. apply init_rest; auto. eapply Permutation_in; [apply Permutation_sym; exact HP|auto].
   - intros v Hv. exists n. split; auto. eapply Permutation_in; [apply Permutation_sym; exact HP|auto].
